@@ -83,10 +83,39 @@ DAY_SUITE = [("day", 3000, 40000)]
 GEN_NOTE = ("the tables StateFields.v / StoreSites.v are REGENERATED from /repo's source text on every run by the fail-closed ast translator harness/gen_facts.py "
             "(alias rules: plain assignment, attribute, basic index, tuple unpacking, per-function return summaries; heap-mediated aliasing and callables held in variables are not tracked) — the translator is trusted")
 
+def _c08_monitor(ctx):
+    thorough = ctx["tier"] != "quick"
+    n = 30 if not thorough else 450
+    cfgs = _base.draw_configs("C08", n, off_season=False, seasons=lambda r: r.choice([2, 3, 3, 4]), start_mode="at", end_mode="after",
+                              method=lambda r: r.choice([0, 1, 1, 2, 2, 3, 4, 4, 5]))
+    # directed: state that can only leak through the reset shows with (a) net irrigation from a dry start over >= 3 seasons
+    # (pre-irrigation on day 1), (b) thermal-time crops in hot climates (season-start calendar conversion), (c) threshold
+    # irrigation from a dry start (stored demand), (d) bunds with initial ponding
+    for i in range(8 if not thorough else 60):
+        rng = rng_for("C08", "directed", i)
+        kind = i % 4
+        if kind == 0:
+            c = sim.gen_config(rng, off_season=False, seasons=rng.choice([3, 4]), start_mode="at", end_mode="after", method=4, gw=False,
+                               crop=rng.choice(["Maize", "Wheat", "Tomato", "Potato", "Sorghum"]))
+            c["iwc"] = {"wc_type": "Pct", "method": "Layer", "depth_layer": c["iwc"]["depth_layer"] if c.get("iwc") and c["iwc"]["method"] == "Layer" else [1],
+                        "value": [rng.choice([0, 20, 30, 40])] * (len(c["iwc"]["depth_layer"]) if c.get("iwc") and c["iwc"]["method"] == "Layer" else 1)}
+            c["irr"] = {"irrigation_method": 4, "NetIrrSMT": rng.choice([60, 70, 85])}
+        elif kind == 1:
+            c = sim.gen_config(rng, off_season=False, seasons=3, start_mode="at", end_mode="after", wfile="hyderabad_climate.txt",
+                               crop=rng.choice(["PaddyRiceGDD", "MaizeGDD", "SorghumGDD", "CottonGDD", "SoybeanGDD"]), planting=rng.choice(["03/01", "04/01", "06/15"]), gw=False)
+        elif kind == 2:
+            c = sim.gen_config(rng, off_season=False, seasons=3, start_mode="at", end_mode="after", method=rng.choice([1, 2]), gw=False)
+            c["iwc"] = {"wc_type": "Pct", "method": "Layer", "depth_layer": c["iwc"]["depth_layer"] if c.get("iwc") and c["iwc"]["method"] == "Layer" else [1],
+                        "value": [rng.choice([30, 45])] * (len(c["iwc"]["depth_layer"]) if c.get("iwc") and c["iwc"]["method"] == "Layer" else 1)}
+        else:
+            c = sim.gen_config(rng, off_season=False, seasons=3, start_mode="at", end_mode="after", bunds=True, gw=False)
+        cfgs.append(c)
+    return _base.run_monitor(monitors2.worker_C08, [{"cfg": c} for c in cfgs], timeout=600)
+
+
 reg(Prop("C08", "seasons are independent when the off-season is not simulated",
     DAY_SUITE,
-    worker_mon("C08", monitors2.worker_C08, 36, 500, timeout=600, off_season=False, seasons=lambda r: r.choice([2, 3, 3]), start_mode="at", end_mode="after",
-               method=lambda r: r.choice([0, 1, 1, 2, 2, 3, 4, 4, 5])),
+    _c08_monitor,
     ["all theorems 'Closed under the global context' (finite tables, vm_compute lifted by forallb_forall)", GEN_NOTE,
      "the whitelist carried_ok (21 fields not reset but dead or re-initialised on day 1) is justified by reading the code, field by field, in proofs/GenFactsOK.v; day1_dead in proofs/DayP.v proves it on the Day.v model under named per-process hypotheses"],
     ["a state field missing from the reset list and not in the hand-justified whitelist breaks carried_fields_whitelisted"],
@@ -102,7 +131,17 @@ def _c10_monitor(ctx):
     payloads = [{"cfg": cfgs[2 * i], "other": cfgs[2 * i + 1]} for i in range(n)]
     r = _base.run_monitor(monitors2.worker_C10, payloads, timeout=900)
     # fresh interpreters, different hash seeds
-    sub = sim.pmap(monitors2.worker_C10_sub, [{"cfg": c, "seeds": [0, 1, 4242, "random"]} for c in cfgs[:(6 if not thorough else 40)]], timeout=900)
+    subcfgs = list(cfgs[:(5 if not thorough else 36)])
+    for i in range(3 if not thorough else 12):     # containers whose iteration order could depend on the hash seed: several observations / schedule dates given as strings
+        rng = rng_for("C10", "sub", i)
+        c = sim.gen_config(rng, gw=True, seasons=1, method=3)
+        if c["gw"]["method"] != "Constant" or len(c["gw"]["dates"]) < 2:
+            import pandas as pd
+            s0 = pd.Timestamp(c["start"])
+            c["gw"] = {"water_table": "Y", "method": "Constant", "dates": [c["start"]] + [(s0 + pd.Timedelta(days=d)).strftime("%Y/%m/%d") for d in (40, 90, 150)],
+                       "values": [2.5, 0.8, 1.6, 0.6]}
+        subcfgs.append(c)
+    sub = sim.pmap(monitors2.worker_C10_sub, [{"cfg": c, "seeds": [0, 1, 2, 3, 4242, "random"]} for c in subcfgs], timeout=900)
     res = sim.pmap(monitors2.worker_C10, payloads[:0], timeout=10)
     inproc = {}
     for s in sub:
